@@ -46,6 +46,7 @@ def configs() -> Dict[str, dict]:
     # a key given once with --context and consumed destructively by every run of the run space
     add("rs-consume", nodes("src_ctx", "failif", "ren_tagsrc") + VALID_TAIL, {"blocks": [{"mode": "by_position", "context": {"value": [1.0, 2.0, 3.0], "a": [0.0, 0.0, 0.0]}}]},
         needs=("tagsrc",))
+    add("valid-kw-mix", nodes("src_ctx", "kwmix", "failif") + VALID_TAIL, needs=("value", "offset"))   # keyword-only parameter without a default
     add("use-before-create", nodes("src_ctx", "mul", "probe_factor") + VALID_TAIL, needs=("value", "factor"))
     add("delete-then-require", nodes("src_ctx", "probe_factor", "del_factor", "mul") + VALID_TAIL, invalid="config")
     add("unknown-processor", nodes("src_ctx", "unknown") + VALID_TAIL, invalid="config")
@@ -292,7 +293,7 @@ def invocations(tier: str):
         sets_list: List[List[str]] = [[], ["pipeline.nodes.0.nope=1"], ["pipeline.nope.key=1"]]
         if name in ("valid", "valid-two", "use-before-create"):
             sets_list.append(["pipeline.nodes.0.processor=VSrc"])              # valid path, same value
-        caps = [None] if spec["rs"] is None else [None, 1, 3, 1000]
+        caps = [None] if spec["rs"] is None else [None, 0, 1, 3, 1000]
         for flags, ctx, sets, cap in itertools.product(flagsets, ctxs, sets_list, caps):
             if tier == "quick" and sets and flags and len(flags) > 1:
                 continue
